@@ -567,3 +567,39 @@ func scFX(ps ParamSet, p1pricing string, tmpls []Template, o AlphaOpts, fx *FXSp
 		Depth:     depth, MaxBlocks: blocks, MaxMsgs: msgs,
 	}
 }
+
+// scBindFX: binding operations on a host chain with a token module: prices published in the main unit of the base
+// token (0.02kilo = 20stake, minimum deposit 40) and in a foreign token (only the global minimum applies).
+func scBindFX(ps ParamSet, depth, blocks, msgs int) *Scenario {
+	sc := scBind(ps, []Action{
+		actBind("a", "P1", "O1", 30, "fkilo20", 1), actBind("a", "P1", "O1", 40, "fkilo20", 1), actBind("a", "P1", "O1", 10, "fusd1", 1), actBind("a", "P1", "O1", 9, "fusd1", 1),
+		actBind("a", "P1", "O1", 10, "fyen", 1),
+		actUpdate("a", "P1", "O1", 0, "fkilo20", 0), actUpdate("a", "P1", "O1", 30, "fkilo20", 0), actUpdate("a", "P1", "O1", 0, "fusd1", 0), actUpdate("a", "P1", "O1", 0, "fkilo2", 0),
+		actDisable("a", "P1", "O1"), actEnable("a", "P1", "O1", 0), actEnable("a", "P1", "O1", 30)},
+		[]Template{tSlash}, []string{"bad"}, depth, blocks, msgs)
+	sc.Name, sc.Rig = "S-BIND(main unit and foreign token)", RigConfig{FX: fxSpec()}
+	return sc
+}
+
+// scMsvcTwo: two host modules each serve a reserved service name ("ms" and "mt"); users try to bind both.
+func scMsvcTwo(ps ParamSet, depth, blocks, msgs int) *Scenario {
+	sc := scMsvc(ps, depth, blocks, msgs)
+	sc.Name = "S-MSVC(two module services)"
+	sc.Rig.ModuleServices = append(sc.Rig.ModuleServices, ModuleSvcSpec{Module: "aamod", Service: "mt", Provider: MSP, Result: resultOK, Output: outputOK},
+		ModuleSvcSpec{Module: "zzmod", Service: "mu", Provider: MSP, Result: resultOK, Output: outputOK})
+	sc.Setup = append(sc.Setup, actDefine("mt", "AU"), actDefine("mu", "AU"))
+	sc.Templates = []Template{tMsvc}
+	sc.Alpha = lifeAlpha(AlphaOpts{RespKinds: []string{"ok"}, BindOps: []Action{
+		actBind("ms", "P1", "O1", 10, "p1", 1), actBind("mt", "P1", "O1", 10, "p1", 1), actBind("mu", "P2", "O2", 10, "p1", 1), actBind("a", "P1", "O1", 10, "p1", 1)}})
+	return sc
+}
+
+// isModuleService: the service name is served by a host module (its binding is installed by the host chain, not by a message).
+func (sc *Scenario) isModuleService(name string) bool {
+	for _, ms := range sc.Rig.ModuleServices {
+		if ms.Service == name {
+			return true
+		}
+	}
+	return sc.Rig.FX != nil && name == st.OraclePriceServiceName
+}
